@@ -19,7 +19,10 @@ PROPERTY = 'C10'
 RULE = ('Inputs: (a) Hypothesis Unicode text and lexer-biased ASCII text; (b) token soups over the full token alphabet; (c) '
         'token-level mutations (delete, duplicate, swap, replace, splice, bracket damage) of the example corpus and of '
         'generated programs; (d) generated well-typed programs and targeted ill-formed variants (non-constant / oversized '
-        'globals, bad entry points, assignments to string elements, arrays of empty calls, ...). Options: word size in '
+        'globals, bad entry points, assignments to string elements, arrays of empty calls, ...); (e) well-typed programs whose function, '
+        'global, parameter and local names come from a pool imitating the compiler\'s own label scheme (s, s_0, s_1, loop_0, func_s, var_x, '
+        'halt, ...) with several overloads and flavours per name and array functions instantiated for two storage classes - these must '
+        'assemble and print what the calls in the source say. Options: word size in '
         '{8,16,24,32,64} bits, stack size in {0,1,5,500,10^6, too large}, unchecked, lint. Nesting depth <= 30 by '
         'construction. Oracle, in process (parse -> evaluate -> CodeGen -> gen_lines): the only exception allowed is '
         'CompilerError, every span in its context lies inside the source, get_info() renders; on success the output must '
@@ -300,8 +303,122 @@ ENTRY_VARIANTS = ['empty @is_you(%s)', 'int @is_you(%s)', 'empty is_you(%s)', 'e
                   'empty @is_you(const int[] a, int[] b)', 'empty @is_you(bool[] a)', 'empty !is_you(%s)']
 
 
+# ---- identifier pools that imitate the compiler's own label scheme -----------------------------------------
+NAME_POOL = ['s', 's_0', 's_1', 's_2', 's_1_0', 's_0_1', 'x', 'x_0', 'x_1', 'loop', 'loop_0', 'loop_1', 'else_0', 'end_if_1', 'func_s', 'func_s_0',
+             'var_x', 'var_x_0', 'arg_a', 'arg_a_0', 'end_call_0', 'break_1', 'continue_0', 'begin_try_0', 'try_handler_0', 'string_0', 'array_1',
+             'halt', 'win', 'error', 'defeat', 'try_fp', 'main', 'start', 'fp', 'ap', 'r1', 'r2', 'write_int', 'stack_overflow']
+SIGS = [('', ''), ('int a', '1'), ('int a, int b', '1, 2'), ('byte a', "'c'"), ('bool a', 'true'), ('string a', '"q"'),
+        ('const int[] a', None), ('const byte[] a', None)]
+
+
+@st.composite
+def name_programs(draw):
+    """Well-typed programs whose identifiers are drawn from NAME_POOL: several overloads and flavours per function name,
+    globals, parameters and locals named like labels.  -> (source, expected output)"""
+    pool = list(NAME_POOL)
+    nf = draw(st.integers(2, 5))
+    fnames = [pool[i] for i in draw(st.lists(st.integers(0, 9), min_size=nf, max_size=nf, unique=True))]     # mostly the s*/x* family
+    if draw(st.booleans()):
+        fnames.append(pool[draw(st.integers(10, len(pool) - 1))])
+    gnames = [pool[i] for i in draw(st.lists(st.integers(0, len(pool) - 1), min_size=1, max_size=4, unique=True))]
+    gnames = [g for g in gnames if g not in fnames]
+    lname = pool[draw(st.integers(0, len(pool) - 1))]
+    funcs = []
+    calls = []
+    expected = []
+    tagno = 0
+    glob = ''
+    for gi, g in enumerate(gnames):
+        kind = draw(st.integers(0, 3))
+        glob += ['int %s = %d;\n' % (g, gi + 3), 'string %s = "g%d";\n' % (g, gi), 'int[] %s = [%d, 1];\n' % (g, gi + 3),
+                 'const byte[] %s = [%d, 2];\n' % (g, gi + 60)][kind]
+    for fn in fnames:
+        used = set()
+        for _ in range(draw(st.integers(1, 3))):
+            flavor = ['', '', '!', '@'][draw(st.integers(0, 3))]
+            params, args = SIGS[draw(st.integers(0, len(SIGS) - 1))]
+            key = (flavor, params)
+            if key in used:
+                continue
+            used.add(key)
+            pname = lname if draw(st.booleans()) else 'a'
+            if pname in gnames or pname == fn:
+                pname = 'a'
+            ps = params.replace(' a', ' ' + pname)
+            tag = 'T%d' % tagno
+            tagno += 1
+            ret = draw(st.booleans())
+            funcs.append('%s %s%s(%s) { write("%s;"); %s}\n' % ('int' if ret else 'empty', flavor, fn, ps, tag, 'return 4; ' if ret else ''))
+            if args is None:
+                # one function body instantiated for const-section and for stack storage
+                el = 'int' if 'int' in params else 'byte'
+                variants = ['[7, 8]', 'LOC']
+                for v in variants[:draw(st.integers(1, 2))]:
+                    calls.append((flavor, '%s%s(%s);' % (flavor, fn, v), tag, el))
+            else:
+                calls.append((flavor, '%s%s(%s);' % (flavor, fn, args), tag, None))
+    order = draw(st.permutations(list(range(len(calls)))))
+    body = ''
+    lv = lname if lname not in gnames and lname not in fnames else 'lv'
+    body += '  int %s = 1;\n  int[] LOCi = [%s, 2];\n  byte[] LOCb = [%s is byte, 2];\n' % (lv, lv, lv)
+    for i in order:
+        flavor, c, tag, el = calls[i]
+        if el is not None:
+            c = c.replace('LOC', 'LOCi' if el == 'int' else 'LOCb')
+        if flavor == '!':
+            body += '  try { %s } undo { write("U"); }\n' % c
+        else:
+            body += '  ' + c + '\n'
+        expected.append(tag + ';')
+    body += '  for (int k = 0; k < 2; k += 1) { if (k == 1) { write("L"); } else { write("E"); } }\n'
+    expected.append('EL')
+    src = glob + ''.join(funcs) + 'empty @is_you() {\n' + body + '}\n'
+    return src, ''.join(expected)
+
+
+def check_names(stats, src, expected, bits, unchecked):
+    kind, val, source = compile_inproc(src, bits, 500, unchecked, False)
+    stats.evaluated()
+    stats.cls('names_' + stage_of(kind, val))
+    opts = 'm=%d unchecked=%s' % (bits, unchecked)
+    if kind == 'diag':
+        # the pool contains names the language may reserve or that collide with built-ins: a located diagnostic is fine
+        for sp in val.context:
+            m = check_span(sp, source.lines, type(val).__name__)
+            if m:
+                return ('span', 'diagnostic position outside the source: %s (%s)\n%s' % (m, val, src))
+        raise Discard('names program rejected: %s' % str(val)[:40])
+    if kind != 'ok':
+        return ('crash:names:' + type(val).__name__, 'internal exception (%s): %s: %s\n%s' % (opts, type(val).__name__, val, src))
+    stats.nt(case_hash([src, bits, unchecked]))
+    try:
+        img = svm.assemble(val, svm.synth_args(val))
+    except svm.AsmError as e:
+        return ('asm:names', 'output does not assemble: %s (%s)\n%s' % (e, opts, src))
+    # expected output: the reference interpreter on the independently parsed and typed source (it also decides which
+    # overload a call binds to); the tags written by construction are only used when the reference declines
+    from harness.execute import run_lines
+    from harness.progcase import reference_for
+    from ref.parse import parse_program
+    from ref.types import check_program, RefTypeError
+    try:
+        prog = parse_program(src)
+        check_program(prog)
+    except RefTypeError as e:
+        return ('names_typing', 'reference typechecker rejects (%s) a names program that hidc accepts\n%s' % (e, src))
+    ref = reference_for(prog, [], bits // 8, checked=not unchecked)
+    if ref.kind != 'win':
+        raise Discard('reference: ' + ref.kind[:30])
+    want = bytes(e[1] for e in ref.events if e[0] == 'out')
+    run = run_lines(val, [], budget=2_000_000)
+    if run.out != want or not run.won:
+        return ('names_output', 'assembled program prints %r (flags %r), the reference interpreter %r (%s)\n%s' % (
+            run.out, run.flags, want, opts, src))
+    return None
+
+
 def shards(tier):
-    return [('text', 0), ('ascii', 0), ('ascii', 1), ('soup', 0), ('soup', 1), ('mut_corpus', 0), ('mut_corpus', 1), ('mut_corpus', 2),
+    return [('names', 0), ('names', 1)] + [('text', 0), ('ascii', 0), ('ascii', 1), ('soup', 0), ('soup', 1), ('mut_corpus', 0), ('mut_corpus', 1), ('mut_corpus', 2),
             ('mut_gen', 0), ('mut_gen', 1), ('mut_gen', 2), ('programs', 0), ('programs', 1), ('illformed', 0), ('illformed', 1), ('options', 0),
             ('nesting', 0)] + ([('atheris', k) for k in range(6)] if tier == 'thorough' else [])
 
@@ -338,6 +455,17 @@ def run_shard(desc, seed, tier):
         seeds = [] if k % 2 == 0 else [t for t in corpus() if len(t.encode()) <= 300] + [g + ' empty @is_you() { ' + b + ' }' for g, b in ILL_FORMED]
         for sig, msg, text in campaign('c10', sd, 150000, seeds, stats, recheck):
             stats.violation({'kind': 'input', 'text': text, 'opts': [16, 500, False, False, 50], 'message': msg, 'signature': sig + ':atheris'})
+        return stats
+    if kind == 'names':
+        strat = st.tuples(name_programs(), st.sampled_from([16, 16, 24, 32]), st.booleans())
+
+        def chk_names(v):
+            (src, expected), bits, unchecked = v
+            if stats.evaluations % 150 == 0:
+                stats.sample({'kind': 'names', 'text': src[:700]})
+            return check_names(stats, src, expected, bits, unchecked)
+        search(strat, chk_names, seed=sd, max_examples=400 * scale, stats=stats, shrink=(tier == 'thorough'),
+               to_case=lambda v, m: {'kind': 'names', 'text': v[0][0], 'expected': v[0][1], 'opts': [v[1], v[2]], 'message': m})
         return stats
     if kind == 'text':
         strat = st.tuples(st.text(st.characters(blacklist_categories=('Cs',), blacklist_characters='\r'), max_size=80), opt_strategy())
@@ -425,6 +553,12 @@ def run_shard(desc, seed, tier):
 
 
 def replay(case):
+    if case.get('kind') == 'names':
+        try:
+            r = check_names(Stats(), case['text'], case['expected'], case['opts'][0], case['opts'][1])
+        except Discard:
+            return None
+        return r[1] if r else None
     bits, S, unchecked, lint, roll = case['opts']
     try:
         r = check_input(Stats(), case['text'], bits, S, unchecked, lint, roll)
